@@ -10,7 +10,8 @@
 //! `config/tree-sitter/config.json`, `grammars/tree-sitter-python`, `cache/`).
 //!
 //! Generated programs never contain a `print` statement (it writes to stderr), so "stderr non-empty"
-//! means "a diagnostic was printed".
+//! means "a diagnostic was printed".  An `--output` path inside a missing directory is the generated instance of
+//! `lr_create_ok = false`: the tool must fail there (exit 1, diagnostic, no output).
 use crate::common::*;
 use crate::rng::Rng;
 use serde_json::json;
